@@ -54,6 +54,15 @@ Build(cfg, walk, fresh) ==
     /\ act' = [op |-> "Build", cfg |-> cfg]
     /\ UNCHANGED ws
 
+\* the same directory staged for ANOTHER algorithm through the same hash-state cache (a store of the legacy text-
+\* normalising MD5 next to the md5 store): its rows must never count as hits for md5
+BuildOther ==
+    /\ Tick /\ Files(ws) # {}
+    /\ warm' = [p \in Paths |-> IF p \in Files(ws) THEN "other:" \o ws[p] ELSE warm[p]]
+    /\ last' = [op |-> "BuildOther"]
+    /\ act' = [op |-> "BuildOther"]
+    /\ UNCHANGED ws
+
 \* tree.get_obj(prefix) on the tree just built vs building the sub-directory directly
 Sub(d) ==
     /\ Tick /\ last.op = "Build" /\ last.listing = Truth(ws) /\ Files(ws) \cap Under[d] # {}
@@ -73,12 +82,14 @@ Next ==
           \E fresh \in Perms(Files(ws) \ Hits(ws, IF st = "real" THEN warm ELSE [p \in Paths |-> Absent])) :
               Build([state |-> st], walk, fresh)
     \/ \E d \in SubDirs : Sub(d)
+    \/ BuildOther
 
 \* behaviour generation: orders are not part of the operation-level behaviour
 NextAny ==
     \/ \E p \in Paths, c \in Contents \cup {Absent} : Edit(p, c)
     \/ \E st \in {"noop", "real"} : BuildAny([state |-> st])
     \/ \E d \in SubDirs : Sub(d)
+    \/ BuildOther
 
 Init == /\ ws \in [Paths -> Contents \cup {Absent}] /\ warm = [p \in Paths |-> Absent]
         /\ last = [op |-> "none"] /\ act = [op |-> "Init"] /\ steps = 0
